@@ -330,3 +330,34 @@ V("C04-b18", "C04", [(FH, "        bts += get_ascii_bytes(str(self.sequence_numb
 V("C04-t1", "C04", (ATT, "        if count is not None and count != 1:", "        if not (count is None or count == 1):"), "silent", "")
 V("C04-t2", "C04", (EITEM, "            if attr.value is None:\n                _bytes += b'\\x00'\n            else:\n                _bytes += attr.get_as_bytes()",
                     "            _bytes += b'\\x00' if attr.value is None else attr.get_as_bytes()"), "silent", "")
+V("C17-t5", "C17", (HCM, "    def wrapper(*args: Any, **kwargs: Any) -> None:\n        with high_compatibility_mode():\n            func(*args, **kwargs)\n",
+                    "    def wrapper(*args: Any, **kwargs: Any) -> None:\n        previous = global_config.high_compat_mode\n        global_config.high_compat_mode = True\n        try:\n            func(*args, **kwargs)\n        finally:\n            global_config.high_compat_mode = previous\n"),
+  "silent", "decorator with its own save / try / finally restore")
+V("C17-b14", "C17", (HCM, "    def wrapper(*args: Any, **kwargs: Any) -> None:\n        with high_compatibility_mode():\n            func(*args, **kwargs)\n",
+                     "    def wrapper(*args: Any, **kwargs: Any) -> None:\n        previous = global_config.high_compat_mode\n        global_config.high_compat_mode = True\n        func(*args, **kwargs)\n        global_config.high_compat_mode = previous\n"),
+  "R17.2", "decorator restores only on the normal path (agent mutant C17-m1)")
+V("C17-b15", "C17", (FRAME, "        index_channel: ChannelItem = self.channels.value[0]\n", "        if self.spacing.value is not None:\n            return\n\n        index_channel: ChannelItem = self.channels.value[0]\n"),
+  "R17.6", "uniform-spacing check skipped when a spacing is present (agent mutant C17-m3)")
+
+# ---------------------------------------------------------------------------------------------- C14
+V("C14-b1", "C14", (SW, "def write_struct(representation_code: RepresentationCode, value: Any) -> bytes:",
+                    "@lru_cache(maxsize=65536)\ndef write_struct(representation_code: RepresentationCode, value: Any) -> bytes:"),
+  ["R14.8", "R14.1"], "value memo on write_struct (original defect F-MEMO)")
+V("C14-b2", "C14", (EITEM, "        if key in ('name', '_origin_reference', '_copy_number'):", "        if key in ('name', '_copy_number'):"),
+  "R14.2", "origin changes no longer invalidate the OBNAME memo")
+V("C14-b3", "C14", (EITEM, "        if key in ('name', '_origin_reference', '_copy_number'):\n            # identity of the item changes: the memoised OBNAME bytes (see 'obname' below) are no longer valid\n            self.__dict__.pop('obname', None)\n\n", ""),
+  "R14.2", "OBNAME memo never invalidated (original defect F-OBNAME)")
+V("C14-b4", "C14", (FILE, "            data_object = DictDataWrapper(\n                self._data_dict | data,", "            self._data_dict = self._data_dict | data\n            data_object = DictDataWrapper(\n                self._data_dict,"),
+  "R14.5", "data of one write kept for the next (original defect F-DATADICT)")
+V("C14-b5", "C14", (ORIGIN, "        if self.creation_time.value is None:\n", "        if True:\n"), "R14.6", "creation time always 'now'")
+V("C14-b6", "C14", (SW, "    func = _struct_dict.get(representation_code, None)  # get a converter corresponding to the repr code",
+                    "    func = _struct_dict.setdefault(representation_code, None)"), "R14.7", "dispatch table mutated at run time")
+V("C14-b7", "C14", (SUL, "        return LogicalRecordBytes(bts, lr_type_struct=b'')", "        self._cached = getattr(self, '_cached', None) or LogicalRecordBytes(bts, lr_type_struct=b'')\n        return self._cached"),
+  ["R14.8", "R14.5"], "label bytes memoised")
+V("C14-b8", "C14", (LR, "            cls._lr_type_struct = RepresentationCode.USHORT.convert(cls.logical_record_type.value)",
+                    "            LogicalRecord._lr_type_struct = RepresentationCode.USHORT.convert(cls.logical_record_type.value)"),
+  ["R14.3", "R14.5", "R14.8"], "type byte memo on the base class")
+V("C14-t1", "C14", (EITEM, "        if key in ('name', '_origin_reference', '_copy_number'):", "        if key in {'name', '_origin_reference', '_copy_number', '_parent'}:"),
+  "silent", "wider invalidation set")
+V("C14-t2", "C14", [(EITEM, "    @cached_property\n    def obname(self) -> bytes:", "    @property\n    def obname(self) -> bytes:")], "silent",
+  "OBNAME not memoised at all")
